@@ -271,6 +271,28 @@ pub fn real_is_valid(mask: u32) -> bool {
 pub fn expect_is_valid(mask: u32) -> bool {
     (0..3).all(|bit| (mask >> (2 * bit)) & 3 == 0)
 }
+
+/// C20: what a fresh Metadata shows through its 14 getters after reading `text` as entry number `k`
+pub fn meta_dump(k: usize, text: &str) -> String {
+    let mut m = Metadata::new();
+    let r = m.read_metadata(meta_entries().swap_remove(k), text);
+    format!("ok={} bi={:?} bv={:?} comment={:?} contents={:?} deinstall={:?} desc={:?} display={:?} install={:?} ii={:?} mtree={:?} preserve={:?} reqby={:?} size_all={:?} size_pkg={:?}",
+        r.is_ok(), m.build_info(), m.build_version(), m.comment(), m.contents(), m.deinstall(), m.desc(), m.display(), m.install(), m.installed_info(), m.mtree_dirs(),
+        m.preserve(), m.required_by(), m.size_all(), m.size_pkg())
+}
+/// the statement's reading: the trimmed content - as text, as its lines, or as an integer - lands in the entry's own field only
+pub fn meta_expect(k: usize, text: &str) -> String {
+    let t = text.trim();
+    let lines: Vec<String> = t.lines().map(|l| l.to_string()).collect();
+    let n: Option<i64> = t.parse().ok();
+    let l = |i: usize| -> Option<Vec<String>> { if i == k { Some(lines.clone()) } else { None } };
+    let s = |i: usize| -> Option<String> { if i == k { Some(t.to_string()) } else { None } };
+    let p = |i: usize| -> String { if i == k { t.to_string() } else { String::new() } };
+    let z = |i: usize| -> Option<i64> { if i == k { n } else { None } };
+    let ok = !(k >= 12 && n.is_none());
+    format!("ok={} bi={:?} bv={:?} comment={:?} contents={:?} deinstall={:?} desc={:?} display={:?} install={:?} ii={:?} mtree={:?} preserve={:?} reqby={:?} size_all={:?} size_pkg={:?}",
+        ok, l(0), l(1), p(2), p(3), s(4), p(5), s(6), s(7), l(8), l(9), l(10), l(11), z(12), z(13))
+}
 pub fn search_c20(r: &mut Rng, iters: usize) -> bool {
     let (e, a) = (expect_meta_table(), real_meta_table());
     if e != a {
@@ -290,6 +312,15 @@ pub fn search_c20(r: &mut Rng, iters: usize) -> bool {
         if !agree {
             witness("meta_valid_consistency", &[("mask", mask.to_string())], "is_valid() == all three texts non-empty", &a);
             return false;
+        }
+    }
+    for k in 0..14 {
+        for text in ["one line", "  first line\nsecond line\n", "42\n", " -7 ", "", "\n", "a\n\nb", "12x"] {
+            let (e, a) = (meta_expect(k, text), meta_dump(k, text));
+            if e != a {
+                witness("meta_getters", &[("entry", k.to_string()), ("text", text.to_string())], &e, &a);
+                return false;
+            }
         }
     }
     let names = ["foo-1.0", "foo-bar-1.0", "foo-1.0nb2", "py39-foo-bar-2.1nb10", "nodash", "foo-1.0-rc1", "mutt-2.2.13-20240101", "a-b-c-d", "x11-links-2.8",
